@@ -805,3 +805,12 @@ func splitTop(s string, sep byte) []string {
 	out = append(out, strings.TrimSpace(s[start:]))
 	return out
 }
+
+// SweepContract: an empty contract (no precondition) whose generated safety obligations carry the tag SWEEP.
+func SweepContract(key string) *FuncContract {
+	pkg := key
+	if i := strings.IndexAny(key, ".("); i >= 0 {
+		pkg = key[:i]
+	}
+	return &FuncContract{Key: key, Kind: "func", Pkg: pkg, Safety: []string{"SWEEP"}, Loops: map[int]*LoopContract{}, CallsAs: map[string]string{}}
+}
